@@ -41,9 +41,9 @@ REAL = ['circuits.core.manager.Manager.run/stop/tick/_dispatcher/processTask/_fi
         'circuits.core.timers.Timer', 'circuits.core.components.Component']
 STUBBED = ['threading.Event -> virtual idle wait', 'time -> virtual clock', 'atexit/signal registration -> no-ops',
            'threaded part: RLock/Event/Thread doubles + baton scheduler']
-ASSUMPTIONS = ['exactly one stop action with a code per cycle', 'a foreign-thread stop() happens after `started` was dispatched', 'events fired from generator steps after the stop took effect are not judged']
+ASSUMPTIONS = ['exactly one exit code per cycle (given by the stop action, or - if that carries none - by a SystemExit raised in the `stopped` handler)', 'a foreign-thread stop() happens after `started` was dispatched', 'events fired from generator steps after the stop took effect are not judged']
 PROBES = ['stop:started', 'stop:chain', 'stop:genstep', 'stop:timer', 'stop:idle-ctrl-c', 'form:stop()', 'form:stop(code)', 'form:SystemExit',
-          'form:KeyboardInterrupt', 'cycle>1', 'stop-when-not-running', 'queued-at-stop', 'task-at-stop', 'threaded', 'stopped-handler-fires']
+          'form:KeyboardInterrupt', 'cycle>1', 'stop-when-not-running', 'queued-at-stop', 'task-at-stop', 'threaded', 'stopped-handler-fires', 'exit-code-while-stopping']
 TIERS = {
     'quick': dict(runs=32000, wall=35, chunk=100, cfg=dict(max_events=30, threaded_share=3)),
     'thorough': dict(runs=400000, wall=600, chunk=200, cfg=dict(max_events=80, threaded_share=3)),
@@ -132,6 +132,12 @@ def _program(ctx, st, on_stop):
                 fire(comp, act[1], t, hname)
             elif act[0] == 'stop':
                 do_stop(comp)
+            elif act[0] == 'late-exit':
+                if st['stop_done'] == st['cycle'] and st['eff'][2] is None:
+                    ctx.stat('exit-code-while-stopping')
+                    st['eff'] = (st['eff'][0], st['eff'][1] + '+SystemExit-in-stopped', act[1])
+                    ctx.trace('    >>> raise SystemExit(%r) in %s (the manager is stopping already)' % (act[1], st['where']))
+                    raise SystemExit(act[1])
 
     def gen_segments(allow_stop, force_gen):
         nseg = 1 + (ch.weighted([5, 2, 1], 'nseg') if not force_gen else 1 + ch.draw(2, 'nseg2'))
@@ -185,6 +191,10 @@ def _program(ctx, st, on_stop):
     if place == 0:
         started_seg.insert(ch.draw(len(started_seg) + 1, 'st-stop-pos'), ('stop',))
     stopped_seg = [('fire', ch.choice(NAMES, 'sp-fire')) for _ in range(ch.weighted([2, 2, 1], 'sp-n'))]
+    # "an exit code ... carried by SystemExit propagates to the caller of run()" also when the manager is stopping already: if the stop action
+    # itself carries no code, the `stopped` handler may end with `raise SystemExit(code)` (the one exit code of the cycle)
+    if code is None and ch.chance(1, 4, 'late-exit'):
+        stopped_seg.append(('late-exit', ch.choice([3, 'text', 0], 'late-code')))
 
     def on_started(self, event, component):
         if component is not self:
